@@ -2,6 +2,9 @@
 
 Theorems: lean/Goat/Props/C09.lean about the lock-granular model lean/Goat/Model/MemFSConc.lean
 (dir_inv, create_once, file_values, no_deadlock, the three old lock orders deadlock;
+dir_lock_holder_inside / quiescent_dir_locks_free / quiescent_locks_free: a directory's writer lock is held only by a
+thread inside a WriteFile/Writer critical section on that directory, so after any schedule in which every thread has
+finished no directory lock - with closed handles no lock at all - is held;
 distinct_paths_commute: operations on independent paths - WriteFile / MkdirAll / Remove / RemoveAll / Copy of files
 and directory trees / reads, any number of threads, every schedule of their critical sections - leave the heap that
 represents the tree of the SEQUENTIAL model (C01, Goat.MemFS.step) after the same operations in ANY order, with the
@@ -16,7 +19,8 @@ Tie of the model to /repo on every run:
                regenerated from the tree under test) = the model's action table (Goat/Model/MemFSConcActs.lean):
                tie_* theorems of Goat/Tie/C09.lean, by decide, one per critical section BY NAME;
   2. replays   the real memfs is driven through the verifhook yield points by schedules (corpus +
-               generated: holder, random, shared-ancestor creation race, siblings at every yield point); the same
+               generated: holder, random, shared-ancestor creation race, siblings at every yield point, write-gap
+               creation race on one name followed by use of the directory); the same
                schedule lines drive the Lean transition system; compared per step: where each goroutine parks /
                blocks / which result it gets, and the final tree;
   3. stress    2..32 goroutines, GOMAXPROCS 1..16, injected Gosched, watchdog; every recorded history is
@@ -39,7 +43,9 @@ META = dict(
              "programs and all schedules of a lock-granular model of memfs (one atomic action per critical section of the "
              "Go code): directory invariant in every interleaving, exactly one winner among concurrent creations of a name, "
              "files hold complete values and readers see only those, no deadlock in the repaired lock order under an "
-             "ordered-handle discipline, reachable deadlocks for the three pre-fix lock orders; distinct_paths_commute at the "
+             "ordered-handle discipline, reachable deadlocks for the three pre-fix lock orders; a directory's writer lock is "
+             "held only from inside a critical section on it, so a quiescent state has every lock free "
+             "(quiescent_locks_free); distinct_paths_commute at the "
              "level of the heap: operations on pairwise independent paths (WriteFile, MkdirAll, Remove, RemoveAll, Copy of a "
              "file or a directory tree, ReadFile, ReadDir, IsExist/IsFile/IsDir; creating operations may share missing "
              "ancestors), started on any forest-shaped heap, leave after EVERY interleaving of their critical sections the "
@@ -70,7 +76,8 @@ META = dict(
     technique="Lean 4 proof (invariants and a simulation invariant over a labelled transition system, all schedules; "
               "refinement to the sequential model and specification of C01) + structural tie (go/ast synchronisation "
               "skeletons = model action table, by decide) + gated schedule replay with enumerated families "
-              "(shared-ancestor creation races, siblings at every yield point) + stress with Lean history monitor + race detector",
+              "(shared-ancestor creation races, siblings at every yield point, write-gap creation race on one name + "
+              "follow-up use of the directory judged by the sequential model of C01) + stress with Lean history monitor + race detector",
 )
 
 # what the model assumes about where locks are taken (output of `memfsconc facts`)
@@ -197,7 +204,7 @@ def _lean(ctx, go):
 def _family(name):
     if name.startswith("c_"):
         return "corpus"
-    for pre in ("sa_", "sib_"):
+    for pre in ("sa_", "sib_", "wg_"):
         if name.startswith(pre):
             return pre[:-1]
     return name[0]
@@ -289,7 +296,8 @@ def _spec_verdict(model_lines, impl_lines):
     if first:
         m, i = first
         if i.endswith(" hang") and not m.endswith(" hang"):
-            return "a call blocks for ever (20 s watchdog; the model says it proceeds): " + i
+            return ("a call blocks for ever (its goroutine is parked on a sync lock - read from the runtime after a generous "
+                    "wait; the model says it proceeds): " + i)
         if i.endswith(" panic"):
             return "a call panicked: " + i
         if m.endswith(" blocked") and " done data" in i:
@@ -307,7 +315,196 @@ def _spec_verdict(model_lines, impl_lines):
     return ""
 
 
-def _replays(ctx, go, model):
+# ---------------------------------------------------------------------------------------------------------------
+# the write-gap family wg_<i> (harness gen_wg.go): the property's own clause, with the SEQUENTIAL model of C01
+# (m_fs, Goat.MemFS.step) as the specification of what a serial order leaves behind
+
+def _hexs(t):
+    return t.encode().hex() if t not in ("", "-", ".") else "-"
+
+
+def _unhex(h):
+    return "" if h == "-" else bytes.fromhex(h).decode("utf-8", "replace")
+
+
+def _units(prog):
+    """the operations of one thread as units of the sequential model: a Writer with its Writes and Close is one
+    `writer` line.  Returns [(m_fs line without the fs id, number of protocol operations, kind)]"""
+    ops = [o.split() for o in prog.split(" ; ")]
+    res, i = [], 0
+    while i < len(ops):
+        o = ops[i]
+        if o[0] == "openw":
+            chunks, n = [], 1
+            while i + n < len(ops) and ops[i + n][0] in ("hwrite", "close") and ops[i + n][1] == o[1]:
+                if ops[i + n][0] == "hwrite":
+                    chunks.append(ops[i + n][2])
+                n += 1
+                if ops[i + n - 1][0] == "close":
+                    break
+            res.append((["writer", _hexs(o[2])] + chunks, n, "writer"))
+            i += n
+            continue
+        word = {"mkdirall": "mkdir", "read": "readfile", "exist": "isexist"}.get(o[0], o[0])
+        if o[0] == "write":
+            res.append((["write", _hexs(o[1]), o[2]], 1, "write"))
+        elif o[0] in ("copy", "copyfile", "copydir"):
+            res.append(([word, _hexs(o[1]), _hexs(o[2])], 1, "copy"))
+        else:
+            res.append(([word, _hexs(o[1])], 1, o[0]))
+        i += 1
+    return res
+
+
+def _canon_res(r):
+    """a result of either protocol with listings as sorted plain names"""
+    r = r.strip()
+    if r.startswith("list"):
+        names = [x for x in r[4:].strip().split(",") if x]
+        return "list " + ",".join(sorted(names))
+    return r
+
+
+def _seq_res(line, n):
+    """result line of m_fs for one unit -> the n results of the gate protocol"""
+    line = line.strip()
+    if line.startswith("list"):
+        names = [x for x in line[4:].strip().split(",") if x]
+        return ["list " + ",".join(sorted(_unhex(x.split(":")[0]) + ":" + x.split(":")[1] for x in names))]
+    return [line] * n
+
+
+def _seq_tree(line):
+    items = []
+    for w in line.split()[1:]:
+        if w.endswith("/"):
+            items.append(_unhex(w[:-1]) + "/")
+        else:
+            a, b = w.split("=", 1)
+            items.append(_unhex(a) + "=" + b)
+    return sorted(items)
+
+
+def _thread_results(out_lines):
+    """per thread: the results of its operations in order, and the first wait that ended in hang/panic"""
+    res, bad = collections.defaultdict(list), None
+    for l in out_lines:
+        w = l.split()
+        if len(w) >= 3 and w[0] in ("step", "auto"):
+            if w[2] == "done":
+                res[w[1]].append(" ".join(w[3:]))
+                if w[3:] == ["panic"] and bad is None:
+                    bad = (w[1], len(res[w[1]]) - 1, "panic")
+            elif w[2] == "hang" and bad is None:
+                bad = (w[1], len(res[w[1]]), "hang")
+    return res, bad
+
+
+class _WriteGap:
+    """evaluates the clause of the wg family.  Serial candidates are run through m_fs once per distinct
+    (fixture, A, B, follow-up) and cached."""
+
+    CANDS = ("AB", "BA", "A", "B", "none")
+
+    def __init__(self, ctx, fsmodel):
+        self.ctx, self.fsmodel = ctx, fsmodel
+        self.cache = {}
+        self.stats = collections.Counter()
+
+    @staticmethod
+    def progs(scen):
+        th = {}
+        for l in scen:
+            if l.startswith("thread "):
+                w = l.split(" ", 2)
+                th[w[1]] = w[2].strip()
+        return th
+
+    def prepare(self, scens):
+        """run the serial candidates of every scenario in `scens` (one m_fs process)"""
+        todo, lines, seen = [], [], set()
+        for s in scens:
+            th = self.progs(s)
+            key = (th["2"], th["0"], th["1"], th["3"])
+            if key in self.cache or key in seen:
+                continue
+            seen.add(key)
+            fix, a, b, f = (_units(th[t]) for t in ("2", "0", "1", "3"))
+            for c in self.CANDS:
+                seq = fix + {"AB": a + b, "BA": b + a, "A": a, "B": b, "none": []}[c] + f
+                lines += ["reset", "new 0 mem"] + [" ".join([u[0][0], "0"] + u[0][1:]) for u in seq] + ["dump 0"]
+                todo.append((key, c, (len(fix), len(a), len(b), seq)))
+        if not todo:
+            return
+        ip, op = self.ctx.path("wg_serial.fs"), self.ctx.path("wg_serial.out")
+        open(ip, "w").write("\n".join(lines) + "\n")
+        rc, err = self.ctx.run_lines(self.fsmodel, [], ip, op)
+        out = [l.rstrip("\n") for l in open(op)]
+        if rc != 0 or len(out) != len(lines):
+            self.ctx.fatal("sequential model m_fs failed on the serial candidates of the wg family: %s (%d lines for %d)"
+                           % (err[-300:], len(out), len(lines)))
+        i = 0
+        for key, c, (nfix, na, nb, seq) in todo:
+            i += 2
+            rs = []
+            for u in seq:
+                if out[i] in ("bad-op", "nofs"):
+                    self.ctx.fatal("m_fs does not understand `%s`" % " ".join(u[0]))
+                rs.append(_seq_res(out[i], u[1]))
+                i += 1
+            tree = _seq_tree(out[i])
+            i += 1
+            racing = rs[nfix:len(seq) - len(_units(key[3]))]
+            follow = [x for r in rs[len(seq) - len(_units(key[3])):] for x in r]
+            self.cache.setdefault(key, {})[c] = dict(tree=tree, follow=follow, racing=[x for r in racing for x in r],
+                                                     fixture_ok=all(x == "ok" for r in rs[:nfix] for x in r))
+            self.stats["serial_histories_run"] += 1
+
+    def verdict(self, scen, out_lines, side):
+        """'' when the output satisfies the clause, else what is wrong; also the evidence counters"""
+        th = self.progs(scen)
+        key = (th["2"], th["0"], th["1"], th["3"])
+        cands = self.cache[key]
+        res, bad = _thread_results(out_lines)
+        ops = {t: th[t].split(" ; ") for t in th}
+        if bad:
+            t, k, what = bad
+            op = ops[t][k] if k < len(ops[t]) else "?"
+            self.stats[side + ":" + what] += 1
+            role = {"0": "the writing operation A", "1": "the creating operation B", "2": "the fixture",
+                    "3": "the follow-up batch"}.get(t, "?")
+            if what == "hang":
+                return ("`%s` (thread %s, %s, operation %d) never returns: its goroutine is parked on a sync lock "
+                        "(read from the runtime after a generous wait) while every operation started before it has "
+                        "finished - no operation may block for ever once all others have finished" % (op, t, role, k + 1))
+            return "`%s` (thread %s, %s) panicked" % (op, t, role)
+        if not _complete(out_lines):
+            return ""
+        tree = next((sorted(l.split()[1:]) for l in out_lines if l.startswith("tree ")), None)
+        a_ok = res["0"][:1] == ["ok"]
+        b_ok = res["1"][:1] == ["ok"]
+        self.stats["%s:racing A=%s,B=%s" % (side, "ok" if a_ok else "err", "ok" if b_ok else "err")] += 1
+        admissible = ["AB", "BA"]
+        if not (a_ok and b_ok):
+            admissible.append("A" if a_ok else "B" if b_ok else "none")
+        got_follow = [_canon_res(x) for x in res["3"]]
+        self.stats[side + ":followup_operations_returned"] += len(got_follow)
+        for c in admissible:
+            cd = cands[c]
+            if cd["tree"] == tree and [_canon_res(x) for x in cd["follow"]] == got_follow:
+                if c in ("A", "B") and any(x != "ok" for x in cd["racing"]):
+                    continue
+                self.stats["%s:matched %s" % (side, c)] += 1
+                return ""
+        self.stats[side + ":no_serial_order"] += 1
+        want = "; ".join("%s: tree %s follow-up %s" % (c, " ".join(cands[c]["tree"]), ",".join(cands[c]["follow"]).replace(" ", "_"))
+                         for c in admissible)
+        return ("the final tree / the answers of the follow-up batch are those of NO serial order of the two racing "
+                "operations (sequential model of C01): got tree %s follow-up %s; serial orders give %s"
+                % (" ".join(tree or []), ",".join(got_follow).replace(" ", "_"), want))
+
+
+def _replays(ctx, go, model, fsmodel):
     n_gen = ctx.pick(420, 3000)
     n_sa = -1       # shared-ancestor family: the whole enumeration (its 4-thread part is drawn by the seed in the
                     # quick tier: 40 of 256 kind assignments per depth, 3 of 24 release orders; thorough: all)
@@ -323,8 +520,9 @@ def _replays(ctx, go, model):
                     l = " ".join(w[:2] + MODEL_VARIANT.split()) + "\n"
                 if l.strip() and (not l.startswith("#") or l.startswith("# expect ")):
                     h.write(l)
-    rc, err = ctx.run([go, "gen", str(n_gen), str(n_sa), str(n_sib), str(ctx.pick(40, 256)), str(ctx.pick(3, 24))],
-                      stdout=ctx.path("gen.ops"))
+    n_wg = -1       # write-gap family: the whole enumeration
+    rc, err = ctx.run([go, "gen", str(n_gen), str(n_sa), str(n_sib), str(ctx.pick(40, 256)), str(ctx.pick(3, 24)),
+                       str(n_wg)], stdout=ctx.path("gen.ops"))
     if rc != 0:
         ctx.fatal("scenario generator failed: " + err[-300:])
     with open(ops, "a") as h:
@@ -339,6 +537,8 @@ def _replays(ctx, go, model):
     chosen, dropped_amb, dropped_budget, blocked_total = [], 0, 0, 0
     fam = collections.defaultdict(collections.Counter)
     model_vs_spec = []
+    wg = _WriteGap(ctx, fsmodel)
+    wg.prepare([s for s in sb if _family(s[0].split()[1]) == "wg"])
     for s, m in zip(sb, mb):
         f = _family(s[0].split()[1])
         fam[f]["generated"] += 1
@@ -349,6 +549,10 @@ def _replays(ctx, go, model):
         if f in ("sa", "sib"):
             s, m = _squeeze(s, m)
         why = _expect_verdict(s, m)
+        if f == "wg":
+            if not _complete(m):
+                fam[f]["expectation_not_applicable_schedule_ends_early"] += 1
+            why = wg.verdict(s, m, "model")
         if why:
             model_vs_spec.append((s, m, why))
         if _expectation(s) is not None and not _complete(m):
@@ -414,6 +618,11 @@ def _replays(ctx, go, model):
                 why = _expect_verdict(s, im)
                 if why:
                     spec_fail.append((s, mm, im, why))
+            if f == "wg" and _complete(mm):
+                fam[f]["with_expectation"] += 1
+                why = wg.verdict(s, im, "impl")
+                if why:
+                    spec_fail.append((s, mm, im, why))
             if len(ctx.samples) < 2 and nontrivial:
                 ctx.samples.append(dict(scenario=[x.strip() for x in s][:14], model=[x.strip() for x in mm][:14],
                                         impl=[x.strip() for x in im][:14]))
@@ -427,12 +636,24 @@ def _replays(ctx, go, model):
     # the union) evaluated on the implementation, and on the model
     for s, mm, im, why in spec_fail[:3]:
         ctx.violation("impl-vs-spec", "gated replay of the real memfs: " + why, lines=[x.rstrip("\n") for x in s],
-                      annotations=["impl: " + x.strip() for x in im if x.startswith("tree ") or " done " in x]
-                      + ["spec: " + next(x.strip() for x in s if x.startswith("# expect "))], concrete=True)
+                      annotations=["impl: " + x.strip() for k, x in enumerate(im) if x.startswith("tree ") or " done " in x
+                                   or (x.rstrip().endswith(" hang") and not any(y.rstrip().endswith(" hang") for y in im[:k]))]
+                      + ["spec: " + next((x.strip() for x in s if x.startswith("# expect ")),
+                                         "every operation returns; final tree and follow-up answers = sequential model "
+                                         "(C01) after fixture, a serial order of the racing operations, follow-up batch")],
+                      concrete=True)
     for s, m, why in model_vs_spec[:3]:
         ctx.violation("impl-vs-model", "the lock-granular MODEL contradicts the expectation of a generated scenario "
                       "(the model or the generator is wrong): " + why, lines=[x.rstrip("\n") for x in s], concrete=False)
     ctx.extra["replay"]["expectation_failures"] = dict(impl=len(spec_fail), model=len(model_vs_spec))
+    ctx.extra["replay"]["write_gap_family"] = dict(sorted(wg.stats.items()))
+    for k in ("impl:hang", "impl:panic", "impl:no_serial_order", "model:no_serial_order"):
+        ctx.extra["replay"]["write_gap_family"].setdefault(k, 0)
+    ctx.evaluations += wg.stats["impl:followup_operations_returned"] + wg.stats["model:followup_operations_returned"]
+    # a scenario whose own clause already failed on the implementation is reported above (a hang there is read from
+    # the runtime): it is not replayed alone once more
+    failed_names = {s[0] for s, _, _, _ in spec_fail}
+    mismatches = [x for x in mismatches if x[0][0] not in failed_names] if spec_fail else mismatches
     if any(l.rstrip().endswith("note deadlock") or l.startswith("note deadlock") for _, m, _ in chosen for l in m):
         ctx.extra["replay"]["scenarios_ending_in_model_deadlock"] = sum(
             1 for _, m, _ in chosen if any(l.startswith("note deadlock") for l in m))
@@ -584,7 +805,18 @@ def _run(ctx, go):
                 "of depth 1-3 (or the same path), all parked in memfs.mkdir.gap for the first missing ancestor, then released in "
                 "every order / round-robin / staircase - the whole enumeration for n<=3, for n=4 %s; sibling family sib: a fixture thread, then two threads with one operation each of {mkdirall, write new, "
                 "write existing, remove, removeall, copy file, copy dir, read, readdir} on siblings d/x, d/y, every ordered pair "
-                "of kinds x both starting threads x every pair of park positions a^k b^l a^* b^*, the whole enumeration) - compared "
+                "of kinds x both starting threads x every pair of park positions a^k b^l a^* b^*, the whole enumeration; "
+                "write-gap family wg: a fixture thread, then A in {WriteFile, Writer+Close, Writer+Write+Close} on a not yet "
+                "existing file P (d/p, or d/n/p below a missing directory) against B in {Copy, CopyFile of a file onto P, Copy, "
+                "CopyDirectory of a directory onto P, MkdirAll P, MkdirAll P/z, CopyDirectory onto P's parent} - the operations "
+                "that create the node without the directory's writer lock -, A held at each of its yield points up to "
+                "memfs.write.gap x B given 0..all of its steps (all = B completes inside A's gap), and B held at each of its "
+                "yield points while A runs as a whole; after both have finished a follow-up thread runs one of 4 batches on "
+                "OTHER names of the same directory (WriteFile, Writer+Write+Close, Remove, MkdirAll, ReadDir) and on P; the "
+                "whole enumeration; its clause - every operation returns (a hang is the goroutine parked on a sync lock, "
+                "read from the runtime), final tree and follow-up answers = the sequential model of C01 (m_fs) after fixture, "
+                "one serial order of A and B (or the ones that reported success), follow-up batch - is evaluated on the "
+                "implementation and on the model) - compared "
                 "per scheduling step and final tree; sa/sib scenarios also carry the property's own expectation (every racing "
                 "operation succeeds with its sequential result, final tree = fixture + both effects) which is evaluated on the "
                 "implementation and on the model; non-trivial = some goroutine parks at a yield point "
@@ -598,7 +830,7 @@ def _run(ctx, go):
     # (a) facts
     bad_facts = _facts(ctx, go)
     # (b) gated replays
-    confirmed, spec_failed = _replays(ctx, go, model)
+    confirmed, spec_failed = _replays(ctx, go, model, ctx.build_model("m_fs"))
     concrete |= spec_failed
     if confirmed:
         concrete |= _report_replay(ctx, confirmed)
@@ -674,7 +906,10 @@ def _run(ctx, go):
     ]
     ctx.trusted_base += [
         "gate scheduler of harness/cmd/memfsconc (goroutine identification by runtime.Stack, 120 ms confirmation of 'blocked' "
-        "only where the model says blocked, 20 s watchdog where it says progress)",
+        "only where the model says blocked; where it says progress: 20 s wait - 1.5 s once the process has reported a "
+        "hang -, then `hang` only if a stop-the-world stack snapshot shows the goroutine parked on a sync lock, twice)",
+        "write-gap family: the translation of a thread's operations into lines of the sequential model's driver m_fs "
+        "(checks/c09.py _units: Writer+Writes+Close = one `writer` line) and the comparison of trees / sorted listings",
         "history monitor rules R0-R5 (Driver/MemFSConc.lean) as the executable form of 'final tree = union of successful "
         "operations on distinct paths, reads see complete values, listings duplicate-free'",
         "go/ast lock facts are syntactic",
@@ -684,7 +919,7 @@ def _run(ctx, go):
         "stream handle - is stated in the action table, not extracted), guarded fields = nodes, index, data, time by name; "
         "the expected side (Goat/Model/MemFSConcActs.lean: Act constructor -> Go function, lock, mode, skeleton) is hand-written",
     ]
-    zero = [k for k in ("replay:blocked", "replay:scenario:sa", "replay:scenario:sib", "stress:copy:ok", "stress:copy:err", "stress:stream:ok", "stress:remove:ok",
+    zero = [k for k in ("replay:blocked", "replay:scenario:sa", "replay:scenario:sib", "replay:scenario:wg", "stress:copy:ok", "stress:copy:err", "stress:stream:ok", "stress:remove:ok",
                         "stress:removeall:ok", "stress:sread:data") if not ctx.histogram.get(k)]
     if zero:
         ctx.notes.append("coverage gap: no case of " + ", ".join(zero))
